@@ -1838,7 +1838,7 @@ class FuncCanon(object):
                     x = c.left.id
                     if x in self.captured or (isinstance(st, ast.While) and any(isinstance(n, ast.Name) and n.id == x and isinstance(n.ctx, (ast.Store, ast.Del)) for s_ in st.body for n in ast.walk(s_))):
                         continue
-                    pre = self._prefix_to(self.fn.body, blk)
+                    pre = self._prefix_for(self.fn.body, blk, x)
                     if pre is None:
                         continue
                     if self._last_def_nn(x, pre + list(blk[:i])) is not True:
@@ -2134,6 +2134,11 @@ class FuncCanon(object):
             # the copy is in no loop that mentions v elsewhere or t outside
             bad = False
             for (lo, hi, lp) in loops:
+                if lo < p_ <= hi:
+                    # the copy runs on every iteration: were t to become v, a binding of t further down the loop would reach the copy on the next
+                    # iteration - where the original read the caller's own, unchanged v
+                    if any(lo <= pos[id(n)] <= hi for n in self.stores.get(t, []) if n is not st.targets[0]):
+                        bad = True
                 if lo < p_ <= hi or lo == p_:
                     if any(lo <= pos[id(n)] <= hi for n in v_loads + [x for x in v_stores]):
                         inside = [n for n in v_loads + v_stores if lo <= pos[id(n)] <= hi]
@@ -2553,6 +2558,31 @@ class FuncCanon(object):
                 r = FuncCanon._prefix_to(b, target)
                 if r is not None:
                     return list(root[:k]) + r
+        return None
+
+    @staticmethod
+    def _prefix_for(root, target, name):
+        """like _prefix_to, for asking what `name` is bound to on arrival at `target`: statements before a loop that re-binds the name somewhere in
+        its body (a later iteration arrives with that binding), or before a try statement whose body re-binds it (for its handlers / else / finally),
+        do not count"""
+        def stores(nodes):
+            return any(isinstance(n, ast.Name) and n.id == name and isinstance(n.ctx, (ast.Store, ast.Del)) for s_ in nodes for n in ast.walk(s_))
+        if root is target:
+            return []
+        for k, st in enumerate(root):
+            if isinstance(st, (ast.FunctionDef, ast.AsyncFunctionDef, ast.ClassDef)):
+                continue
+            for b in _blocks_of(st):
+                r = FuncCanon._prefix_for(b, target, name)
+                if r is None:
+                    continue
+                if isinstance(st, (ast.While, ast.For, ast.AsyncFor)) and (stores(st.body) or stores(st.orelse) or (not isinstance(st, ast.While) and stores([st.target]))):
+                    return r
+                if isinstance(st, ast.Try) and b is not st.body and stores(st.body):
+                    return r
+                if isinstance(st, (ast.With, ast.AsyncWith)) and stores([it.optional_vars for it in st.items if it.optional_vars is not None]):
+                    return r
+                return list(root[:k]) + r
         return None
 
     def ifflag(self, blk):
